@@ -105,6 +105,66 @@ func isFlagsLoad(v ssa.Value) bool {
 	return false
 }
 
+// flagsValue: v is the AVP's flags octet — loaded from the Flags field, or a parameter of an unexported helper
+// that receives the flags octet at every library call site (avpHeaderLen(a.Flags)).
+func (e *avpSym) flagsValue(v ssa.Value, d int) bool {
+	if isFlagsLoad(v) {
+		return true
+	}
+	p, ok := flow.Peel(v).(*ssa.Parameter)
+	if !ok || d > 2 || e == nil || e.c == nil {
+		return false
+	}
+	f := p.Parent()
+	if f.Object() != nil && f.Object().Exported() {
+		// a constructor's flags argument: the value it stores (possibly with a bit OR-ed in) into AVP.Flags
+		stored := false
+		flow.Instrs(f, func(in ssa.Instruction) {
+			st, ok := in.(*ssa.Store)
+			if !ok {
+				return
+			}
+			if tn, fld, _, ok := flow.FieldOf(st.Addr); !ok || tn != "AVP" || fld != "Flags" {
+				return
+			}
+			var from func(v ssa.Value, k int) bool
+			from = func(v ssa.Value, k int) bool {
+				if k > 4 {
+					return false
+				}
+				switch x := flow.Peel(v).(type) {
+				case *ssa.Parameter:
+					return x == p
+				case *ssa.Phi:
+					for _, ed := range x.Edges {
+						if from(ed, k+1) {
+							return true
+						}
+					}
+				case *ssa.BinOp:
+					return x.Op == token.OR && (from(x.X, k+1) || from(x.Y, k+1))
+				}
+				return false
+			}
+			if from(st.Val, 0) {
+				stored = true
+			}
+		})
+		return stored
+	}
+	idx := paramIndex(f, p)
+	css := e.c.librarySites(f)
+	if len(css) == 0 {
+		return false
+	}
+	for _, cs := range css {
+		if idx >= len(cs.Common().Args) || !e.flagsValue(cs.Common().Args[idx], d+1) {
+			return false
+		}
+	}
+	return true
+}
+
 // vPred: the branch condition cond (on its taken/not-taken edge) decides the V flag: "V", "noV" or "".
 func (e *avpSym) vPred(cond ssa.Value, taken bool, depth int) string {
 	v, neg := flow.Cond(cond, taken)
@@ -134,7 +194,7 @@ func (e *avpSym) vPred(cond ssa.Value, taken bool, depth int) string {
 				fl = and.Y
 			}
 			k, ok2 := flow.ConstInt(pr[1])
-			if !ok1 || !ok2 || m1 != 0x80 || !isFlagsLoad(fl) || (k != 0x80 && k != 0) {
+			if !ok1 || !ok2 || m1 != 0x80 || !e.flagsValue(fl, 0) || (k != 0x80 && k != 0) {
 				continue
 			}
 			isV := (k == 0x80) == (x.Op == token.EQL)
